@@ -7,10 +7,12 @@ import corpus as corpus_mod
 CORPUS_PATH = os.path.join(CACHE, "corpus.txt")
 
 
-def build_corpus():
+def build_corpus(expanded=False):
+    """`expanded`: also return the "#x" variants (expressible built-in types written out in the closed syntax); the driver's corpus
+    file always holds them"""
     n, uns = corpus_mod.write_corpus(CORPUS_PATH)
     r = corpus_mod.Resolver()
-    conts = [c for c in r.containers()]
+    conts = [c for c in r.containers() if expanded or not c.get("expanded")]
     return conts
 
 
